@@ -11,8 +11,8 @@
     * `serialization_wrappers.py`: `Serializer/Deserializer.__validate__` (`wrapperOk`).
 
   Representation choices (all checked by the `mapper` correspondence suite):
-    * a Python mapper dict is an association list read with *last-wins* lookup (`lookupR`); keys are
-      structured: `"x._mapper"` is `MKey.nest "x"`, any other key is `MKey.fld`;
+    * a Python mapper dict is an association list read with *last-wins* lookup (`lookupR`), rebuilt
+      after every aggregation round with dict-assignment semantics (`norm`); keys are structured: `"x._mapper"` is `MKey.nest "x"`, any other key is `MKey.fld`;
     * documents and instances share one JSON tree type `J`; an instance is an object keyed by field
       names that lists every class field in class order, `null` for an absent optional field
       (`serialize_internal` skips `None` values, so absent and `None` coincide);
@@ -160,14 +160,26 @@ def addKey (S : StrFns) (forSer : Bool) (m : Mapper) (k : MKey) (v : MV) : MKey 
   | .nest f, .sub _ => if hit m k v then k else .nest (newNest S forSer m f)
   | _, _ => k
 
+/-- `d[k] = v` on an association list: an existing key keeps its position and gets the new value,
+    a new key is appended -/
+def dset (acc : MDict) (k : MKey) (v : MV) : MDict :=
+  if acc.any (fun p => decide (p.1 = k)) then acc.map (fun p => if p.1 = k then (k, v) else p)
+  else acc ++ [(k, v)]
+
+/-- the Python dict obtained by assigning the entries in order (`result_mapper[k] = v` in a loop):
+    a key assigned twice stays at its first position with its last value — the position matters
+    because the next aggregation round iterates in this order -/
+def norm (l : MDict) : MDict := l.foldl (fun acc p => dset acc p.1 p.2) []
+
 /-- nested entry: `add_mapper_to_aggregation(sub_mapper, v)` if there is a sub-mapper else `v` -/
 def subResult (sm : Option Mapper) (p : MDict) (rec : Mapper → MDict) : MV :=
   match sm with
-  | some m' => .sub (rec m')
+  | some m' => .sub (norm (rec m'))
   | none => .sub p
 
 mutual
-/-- `add_mapper_to_aggregation(latest = m, previous)` -/
+/-- `add_mapper_to_aggregation(latest = m, previous)`: the entries assigned to `result_mapper`, in
+    iteration order (`norm` turns them into the resulting dict) -/
 def add (S : StrFns) (forSer : Bool) : Mapper → MDict → MDict
   | _, [] => []
   | m, (k, v) :: r => (addKey S forSer m k v, addVal S forSer m k v) :: add S forSer m r
@@ -183,9 +195,9 @@ def addVal (S : StrFns) (forSer : Bool) : Mapper → MKey → MV → MV
 termination_by structural _ _ v => v
 end
 
-/-- fold of `add` over a mapper list, first element applied first -/
+/-- fold of `add` over a mapper list, first element applied first; each round builds a fresh dict -/
 def foldAdd (S : StrFns) (forSer : Bool) (ms : List Mapper) (acc : MDict) : MDict :=
-  ms.foldl (fun a m => add S forSer m a) acc
+  ms.foldl (fun a m => norm (add S forSer m a)) acc
 
 /-! ### classes -/
 
